@@ -182,6 +182,31 @@ fn main() {
             let extra: Value = m.extra();
             c.summary(extra);
         }
+        "exp" => {
+            // experiment: which kinds of invalid reconstruction arguments are safe to call on this tree?
+            let args = parse_args(&argv[3..]);
+            let variant: u64 = argv[2].parse().unwrap();
+            ctx::set_address_space_limit(2 << 30);
+            let mut r = rng::Rng::derive(args.seed, 0xE0, variant, 0);
+            let mut n_ok = 0;
+            let mut n_err = 0;
+            for i in 0..400 {
+                let st = match streams::any_stream(&mut r, 20000, 3) { Some(s) => s, None => continue };
+                let a = match api::cur::analyze(&st.bytes, false) { api::Out::Ok(a) => a, _ => continue };
+                let mut plain = a.plain.clone();
+                if plain.len() < 40 { continue; }
+                match variant {
+                    0 => { let k = plain.len() * 2 / 3; plain.truncate(k); }
+                    1 => { let k = plain.len() - 1; plain.truncate(k); }
+                    2 => { plain.extend_from_slice(b"extra bytes behind the plaintext"); }
+                    3 => { let n = plain.len(); plain[n - 1] ^= 0x55; }
+                    _ => { let from = plain.len() * 2 / 3; let i2 = from + r.usize_below(plain.len() - from); plain[i2] ^= 0x55; }
+                }
+                eprintln!("call {} variant {} plain {} corr {}", i, variant, plain.len(), a.corr.len());
+                match api::cur::reconstruct(&plain, &a.corr) { api::Out::Ok(_) => n_ok += 1, _ => n_err += 1 }
+            }
+            eprintln!("variant {} done ok={} err={}", variant, n_ok, n_err);
+        }
         "corpus" => {
             // seed corpus for the coverage-guided stage: small streams and files from the generators
             let dir = argv[2].clone();
